@@ -1669,10 +1669,22 @@ std::string Generator::GeneratorImpl::generateCode(const AnalyserEquationAstPtr 
             code = generateCode(ast->leftChild()) + generatePiecewiseElseCode(mProfile->nanString());
         }
     } break;
-    case AnalyserEquationAst::Type::PIECE:
-        code = generatePiecewiseIfCode(generateCode(ast->rightChild()), generateCode(ast->leftChild()));
+    case AnalyserEquationAst::Type::PIECE: {
+        auto astLeftChild = ast->leftChild();
+        auto astRightChild = ast->rightChild();
+        auto astLeftChildCode = generateCode(astLeftChild);
+        auto astRightChildCode = generateCode(astRightChild);
 
-        break;
+        if (isPiecewiseStatement(astLeftChild)) {
+            astLeftChildCode = "(" + astLeftChildCode + ")";
+        }
+
+        if (isPiecewiseStatement(astRightChild)) {
+            astRightChildCode = "(" + astRightChildCode + ")";
+        }
+
+        code = generatePiecewiseIfCode(astRightChildCode, astLeftChildCode);
+    } break;
     case AnalyserEquationAst::Type::OTHERWISE:
         code = generateCode(ast->leftChild());
 
